@@ -182,14 +182,11 @@ impl Compiler {
         self.instructions.shrink_to_fit();
         self.constants.shrink_to_fit();
 
-        // instruct GC to stop managing any of the constants
-        // TODO: Implement custom Clone for object instead?
-        for c in &self.constants {
-            self.gc.untrace(*c);
-        }
-
+        // The bytecode gets its own copy of every heap-allocated constant. Whoever runs the bytecode takes over
+        // the memory management of these copies, while the compiler keeps managing (and re-using) its own
+        // constants, so they stay valid if this compiler is used again (e.g. for the next line in the REPL).
         Ok(Bytecode {
-            constants: self.constants.clone(),
+            constants: self.constants.iter().map(|c| c.duplicate()).collect(),
             instructions: std::mem::take(&mut self.instructions),
         })
     }
